@@ -348,6 +348,10 @@ func anyBody(t *rapid.T) ([]byte, string) {
 		return ManyStatements(t), "many-statements"
 	case 3, 4:
 		return Segments(t), "segments"
+	case 5:
+		// trees that are returned together with the grammar's own reports (by-reference foreach key, trait with
+		// extends / implements): well-formed syntax, built by action code no valid program reaches
+		return SemanticErrorProgram(t), "grammar-reported-errors"
 	}
 	switch rapid.IntRange(0, 6).Draw(t, "source") {
 	case 6:
